@@ -313,6 +313,18 @@ def _isa_db_units():
             Unit("C15/ISA-DB operations can be evaluated/aarch64", reg_changes_unit("aarch64"), "P", [(ISAF, "ISASemantics.get_reg_changes")], decisive=False)]
 
 
+def _table_lookup_units():
+    """'analysing an instruction that matches any shipped form never crashes' includes the forms that are costed by composition
+    (register form + load / store table row): the row lookups must hand back a row for every address shape and register type -
+    the default row if nothing else fits (units of C08)"""
+    from . import c08
+    out = []
+    for u in c08.units("quick"):
+        if "get_store_throughput(" in u.id or "get_load_throughput(" in u.id:
+            out.append(Unit(u.id.replace("C08/", "C15/composed-forms/"), u.fn, u.label, u.functions, decisive=False, timeout=u.timeout))
+    return out
+
+
 def _run_dispatch():
     from .c13 import run_dispatch_unit
     return run_dispatch_unit
@@ -327,6 +339,7 @@ def units(tier):
         Unit("C15/average_port_pressure/exception-freedom-under-wf", avg_unit, "P", [(HW, "MachineModel.average_port_pressure")]),
         Unit("C15/average_port_pressure/Pb-floor", avg_pb_unit, "Pb", [(HW, "MachineModel.average_port_pressure")]),
         Unit("C15/_handle_instruction_found", handle_found_unit, "P", [(AS, "ArchSemantics._handle_instruction_found")]),
+        *_table_lookup_units(),
     ] + _isa_db_units() + [
         Unit("C15/run(--db-check reaches sanity_check)", _run_dispatch(), "P", [("osaca/osaca.py", "run")], decisive=False),
         Unit("C15/MachineModel.__init__(loader: entries, aliases, tables)", loader_unit, "Pb", [(HW, "MachineModel.__init__")]),
